@@ -754,6 +754,23 @@ def render_space(sp, st, depth=0):
   return tdict(list(zip(keys, slots)))
 
 
+def without_names(T):
+  """Copy of a description whose placeholders are anonymous (decision point
+  names must be unique in a space)."""
+  if T['t'] == 'const':
+    return T
+  out = dict(T)
+  if 'name' in out:
+    out['name'] = None
+  for key in ('items', 'fields'):
+    if key in out:
+      out[key] = [[k, without_names(c)] for k, c in out[key]] if T['t'] != 'list' else [
+          without_names(c) for c in out[key]]
+  if 'cands' in out:
+    out['cands'] = [without_names(c) for c in out['cands']]
+  return out
+
+
 def render_elem(e, st, depth):
   rng = st.rng
   if e['t'] == 'float':
@@ -770,7 +787,7 @@ def render_elem(e, st, depth):
     if cands[i]['t'] == 'const' and isinstance(cands[i]['v'], int) and rng.random() < 0.5:
       cands[j] = const(float(cands[i]['v']))      # 101 vs 101.0
     else:
-      cands[j] = cands[i]
+      cands[j] = without_names(cands[i])
     st.has_dup = True
   return choice(e['k'], cands, e['distinct'], e['sorted'], e.get('name'), _tag(st))
 
